@@ -4,7 +4,8 @@
 
   All of it holds on every state the crate can reach (the checks evaluate it on every visited state):
     * a cell's first character is not U+FFFD (`perform.rs` reports that one instead of storing it);
-    * a character of width `w` in column `c` satisfies `c + w ≤ cols` (it was placed there by `text`);
+    * a character of width `w` in column `c` satisfies `c + min w 2 ≤ cols` (a cell holds at most a
+      double-width character; `text` clamps the width it works with to 2);
     * every combining character of a cell was appended while the cell held fewer than 18 bytes
       (`Cell::append` stops there), so re-typing the cell drops none of them;
     * colour components are bytes (they came through `u16ToU8`).
@@ -29,7 +30,7 @@ def cellEmitOk (W : Nat → Option Nat) (cols col : Nat) (c : Cell) : Bool :=
   (if c.len == 0 then true
    else match (Utf8.fromUtf8 (c.contents.take c.len)).chars with
      | [] => false
-     | f :: zs => f != 0xFFFD && decide (col + (W f).getD 1 ≤ cols) && prefixOkB (Utf8.encode f).length zs)
+     | f :: zs => f != 0xFFFD && decide (col + min ((W f).getD 1) 2 ≤ cols) && prefixOkB (Utf8.encode f).length zs)
 
 def rowEmitOk (W : Nat → Option Nat) (cols : Nat) (r : Row) : Bool :=
   (r.cells.zipIdx.all (fun p => cellEmitOk W cols p.2 p.1))
